@@ -13,6 +13,8 @@ use std::collections::{HashMap, HashSet};
 
 pub const NAMES: &[&str] = &["a", "a1", "a10", "a1b", "a02", "b", "pkg1", "pkg10", "x9", "x10", "x1a", "a2", "n18446744073709551616", "n99999999999999999999"];
 pub const BAD_NAMES: &[&str] = &["", "1a", "a b", "a/b", "ä"];
+pub const TOO_LONG_129: &str = "L01234567890123456789012345678901234567890123456789012345678901234567890123456789012345678901234567890123456789012345678901234567";
+pub const TOO_LONG_200: &str = "M0123456789012345678901234567890123456789012345678901234567890123456789012345678901234567890123456789012345678901234567890123456789012345678901234567890123456789012345678901234567890123456789012345678";
 
 pub const PALETTE: &[ElementName] = &[
     ElementName::ArPackages,
@@ -224,6 +226,46 @@ pub const FIXTURE_DOC: &str = r#"<?xml version="1.0" encoding="utf-8"?>
 </AR-PACKAGE>
 </AR-PACKAGES></AUTOSAR>"#;
 
+/// a 4.0.1 document (loaded leniently) in which CAN-TP-ADDRESS / CAN-TP-CHANNEL carry a SHORT-NAME although their types are
+/// named only from 4.0.2 on: identifiable for the library (path, index entry, reference target) whatever the file's version says
+pub const FIXTURE_DOC_401: &str = r#"<?xml version="1.0" encoding="utf-8"?>
+<AUTOSAR xsi:schemaLocation="http://autosar.org/schema/r4.0 AUTOSAR_4-0-1.xsd" xmlns="http://autosar.org/schema/r4.0" xmlns:xsi="http://www.w3.org/2001/XMLSchema-instance">
+<AR-PACKAGES>
+<AR-PACKAGE><SHORT-NAME>a</SHORT-NAME>
+ <ELEMENTS>
+  <CAN-TP-CONFIG><SHORT-NAME>a1</SHORT-NAME>
+   <TP-ADDRESSS>
+    <CAN-TP-ADDRESS><SHORT-NAME>x9</SHORT-NAME><TP-ADDRESS>1</TP-ADDRESS></CAN-TP-ADDRESS>
+    <CAN-TP-ADDRESS><SHORT-NAME>x10</SHORT-NAME><TP-ADDRESS>2</TP-ADDRESS></CAN-TP-ADDRESS>
+   </TP-ADDRESSS>
+   <TP-CHANNELS>
+    <CAN-TP-CHANNEL><SHORT-NAME>b</SHORT-NAME><CHANNEL-ID>1</CHANNEL-ID></CAN-TP-CHANNEL>
+   </TP-CHANNELS>
+   <TP-NODES>
+    <CAN-TP-NODE><SHORT-NAME>a2</SHORT-NAME><TP-ADDRESS-REF DEST="CAN-TP-ADDRESS">/a/a1/x9</TP-ADDRESS-REF></CAN-TP-NODE>
+    <CAN-TP-NODE><SHORT-NAME>a2_1</SHORT-NAME><TP-ADDRESS-REF DEST="CAN-TP-ADDRESS">/a/a1/x10</TP-ADDRESS-REF></CAN-TP-NODE>
+   </TP-NODES>
+  </CAN-TP-CONFIG>
+ </ELEMENTS>
+</AR-PACKAGE>
+<AR-PACKAGE><SHORT-NAME>pkg1</SHORT-NAME>
+ <ELEMENTS>
+  <CAN-TP-CONFIG><SHORT-NAME>x9</SHORT-NAME>
+   <TP-ADDRESSS>
+    <CAN-TP-ADDRESS><SHORT-NAME>a1b</SHORT-NAME><TP-ADDRESS>3</TP-ADDRESS></CAN-TP-ADDRESS>
+   </TP-ADDRESSS>
+   <TP-NODES>
+    <CAN-TP-NODE><SHORT-NAME>a2</SHORT-NAME><TP-ADDRESS-REF DEST="CAN-TP-ADDRESS">/a/a1/x9</TP-ADDRESS-REF></CAN-TP-NODE>
+    <CAN-TP-NODE><SHORT-NAME>e</SHORT-NAME><TP-ADDRESS-REF DEST="CAN-TP-ADDRESS">/pkg1/x9/a1b</TP-ADDRESS-REF></CAN-TP-NODE>
+    <CAN-TP-NODE><SHORT-NAME>f</SHORT-NAME><TP-ADDRESS-REF DEST="CAN-TP-ADDRESS">/pkg10/a1/x9</TP-ADDRESS-REF></CAN-TP-NODE>
+   </TP-NODES>
+  </CAN-TP-CONFIG>
+ </ELEMENTS>
+</AR-PACKAGE>
+<AR-PACKAGE><SHORT-NAME>pkg10</SHORT-NAME><ELEMENTS></ELEMENTS></AR-PACKAGE>
+<AR-PACKAGE><SHORT-NAME>e</SHORT-NAME></AR-PACKAGE>
+</AR-PACKAGES></AUTOSAR>"#;
+
 /// second view: shares /a and /pkg1, adds elements (mergeable with FIXTURE_DOC)
 pub const FIXTURE_DOC_B: &str = r#"<?xml version="1.0" encoding="utf-8"?>
 <AUTOSAR xsi:schemaLocation="http://autosar.org/schema/r4.0 AUTOSAR_00050.xsd" xmlns="http://autosar.org/schema/r4.0" xmlns:xsi="http://www.w3.org/2001/XMLSchema-instance">
@@ -354,6 +396,19 @@ impl World {
 
     /// fixture: model 0 loaded with FIXTURE_DOC (file 0), optional empty second model with a file
     pub fn fixture(kind: u32) -> World {
+        if kind >= 100 {
+            // lenient load of the 4.0.1 document (version-dependently named elements); odd: plus a second 4.0.1 model
+            let mut w = World::new(if kind % 2 == 1 { 2 } else { 1 });
+            let (f, _) = w.models[0].load_buffer(FIXTURE_DOC_401.as_bytes(), "base401.arxml", false).expect("4.0.1 fixture loads leniently");
+            w.files.push(FileH { model: 0, file: f });
+            if w.models.len() > 1 {
+                let f = w.models[1].create_file("other401.arxml", AutosarVersion::Autosar_4_0_1).unwrap();
+                w.files.push(FileH { model: 1, file: f });
+                let _ = w.models[1].root_element().create_sub_element(ElementName::ArPackages).and_then(|p| p.create_named_sub_element(ElementName::ArPackage, "a")).and_then(|p| p.create_sub_element(ElementName::Elements));
+            }
+            w.rescan();
+            return w;
+        }
         let mut w = World::new(if kind % 2 == 1 { 2 } else { 1 });
         match kind % 4 {
             0 | 1 => {
@@ -593,6 +648,10 @@ impl World {
 
     fn pick_name(sel: u32) -> &'static str {
         if sel % 24 == 0 {
+            if sel % 7 == 3 {
+                // conforms to the identifier pattern but is longer than the 128 characters the specification allows
+                return if sel % 2 == 0 { TOO_LONG_129 } else { TOO_LONG_200 };
+            }
             BAD_NAMES[pick(BAD_NAMES.len(), sel.rotate_left(9))]
         } else {
             NAMES[pick(NAMES.len(), sel.rotate_left(9))]
